@@ -4,6 +4,7 @@ import (
 	"fmt"
 	"go/types"
 	"strconv"
+	"strings"
 )
 
 // Heap maps location keys to abstract values. base is shared and read-only
@@ -206,6 +207,13 @@ func (ip *Interp) entry(name string, t types.Type) Val {
 func (ip *Interp) defaultAt(o *Obj, path []Sel, t types.Type) Val {
 	if o.Kind == ObjFresh {
 		return ip.zero(t)
+	}
+	// a package-level variable of a package whose initialiser has been interpreted: what the initialiser did not
+	// store is the zero value (composite literals are built in place, elements not listed are never stored)
+	if o.Kind == ObjGlobal && len(ip.ZeroGlobalPkgs) > 0 {
+		if i := strings.LastIndex(o.Name, "."); i > 0 && ip.ZeroGlobalPkgs[o.Name[:i]] {
+			return ip.zero(t)
+		}
 	}
 	return ip.entry(o.Name+PrettyPath(o.T, path), t)
 }
